@@ -77,6 +77,11 @@ impl BlockQuantizedGemm {
             return Err(GemmError::QuantBitsNotSupported);
         }
 
+        // Handle empty output here, as it cannot be split into chunks.
+        if out.is_empty() {
+            return Ok(unsafe { out.assume_init() });
+        }
+
         // Handle K=0 case here so we can rely on K > 0 in the kernels.
         if lhs_k == 0 {
             out.fill(MaybeUninit::new(0.));
